@@ -12,7 +12,7 @@ import random
 from common import *  # noqa
 
 NAMES = ["a", "b", "c", "d", "e", "f"]
-SALS = [-3, 0, 0, 1, 5, 5, 9]
+SALS = [-3, 0, 0, 1, 5, 5, 9, -2 ** 63, 2 ** 63 - 1]      # the int64 extremes: differences of saliences overflow
 DESCS = ["", "d1", "d2"]
 
 
